@@ -66,6 +66,13 @@ def make_case(rng, i, tier):
     spec = {"notes": notes, "extra": extra, "start": rng.choice(["abs", "rel", "both"])}
     if target > gen.end_of(spec):
         spec["pad"] = target
+    if i % 6 == 2 and target > 0:
+        # "any sequence": 2-3 notes that are struck and never released (the constructor normalises first and has to judge length
+        # and signatures of what remains), on pitches / channels that may have sounded and been closed earlier
+        import random
+        r2 = random.Random(f"c10-hanging:{i}")
+        spec["hanging"] = [[r2.choice(chans), r2.choice((60, 62, 64)), r2.randrange(0, target + 1), 50 + k]
+                           for k in range(r2.randint(2, 3))]
     soup = None
     if rng.random() < 0.12:
         soup = [["on", 0, 60, 9], ["wait", rng.randint(1, max(1, cap))], ["on", 0, 60, 9], ["off", 0, 61], ["wait", 3]]
